@@ -122,6 +122,8 @@ type result struct {
 	signers string
 	raw     string
 	nw      int // effective lock writes at the moment the answer was complete (what was on record when it was released)
+	nw0     int   // effective lock writes when the request was handed to the witness
+	by      *plan // the instance that answered
 }
 
 type world struct {
@@ -283,8 +285,11 @@ func (w *world) addLog(i int, origin string, keyID int, fcreate, ffetch, fcfetch
 func (w *world) post(in *inst, path string, body []byte) result {
 	req := httptest.NewRequest("POST", path, bytes.NewReader(body))
 	rec := httptest.NewRecorder()
+	w.st.mu.Lock()
+	nw0 := len(w.st.writes)
+	w.st.mu.Unlock()
 	in.h.ServeHTTP(rec, req)
-	r := result{status: fmt.Sprint(rec.Code), raw: rec.Body.String(), signers: "-"}
+	r := result{status: fmt.Sprint(rec.Code), raw: rec.Body.String(), signers: "-", nw0: nw0, by: in.p}
 	w.st.mu.Lock()
 	r.nw = len(w.st.writes)
 	w.st.mu.Unlock()
